@@ -21,7 +21,7 @@ structure DState where
   gn : Drv.Genum.St := {}
   gei : Drv.GEI.St := {}
   lg : Drv.Log.DSt := {}
-  set : Drv.Set.St := none
+  set : Drv.Set.St := {}
   gsync : Drv.GSync.DSt := {}
   gc : Drv.GConfig.DSt := {}
   gsort : Drv.GSort.St := {}
